@@ -17,7 +17,7 @@ namespace CanVerif.C05k
 open CanVerif CanVerif.Dbc CanVerif.Dbc.FileProofs
 
 theorem dbc_roundtrip_core_with_definitions (es : List WEcu) (hes : wfEcus es = true) (ds : List DefLine) (hds : wfDefs ds = true)
-    (dds : List DefDefLine) (hdds : ∀ d ∈ dds, wfDefDef d = true)
+    (dds : List DefDefLine) (hdds : wfDefaults ds dds = true)
     (ga : List (Str × Str)) (hga : wfAttrs (expectDefs ds dds) .global .global ga = true)
     (hea : ∀ e ∈ es, wfAttrs (expectDefs ds dds) .ecu (.ecu e.name) e.attrs = true)
     (ps : List (WFrame × (Nat × Bool))) (hwf : ∀ p ∈ ps, p.1.wf p.2 = true) (hdist : ps.Pairwise fun p q => p.2 ≠ q.2) :
@@ -35,12 +35,13 @@ theorem definitions_in_order (ds : List DefLine) (m : RMatrix) (hm : m.defs = []
   have := adef_fold ds [] m (by simp [hm]) (by simpa using hnd) hok
   rw [this]; simp
 
-/-- `BA_DEF_DEF_` lines: every definition of that name takes the value (environment variables aside); the last line wins -/
-theorem defaults_last_wins (dds : List DefDefLine) (m : RMatrix) :
+/-- `BA_DEF_DEF_` lines whose values are numbers where a definition of their name says so: every definition of that name takes the value
+(environment variables aside); the last line wins -/
+theorem defaults_last_wins (dds : List DefDefLine) (m : RMatrix) (hok : ∀ dd ∈ dds, defaultOk m dd = true) :
     ((dds.map fun d => Item.defdef d.name d.value).foldl applyItem m).defs =
       m.defs.map fun d =>
         { d with default := dds.foldl (fun acc dd => if d.name == dd.name && d.level != .env then some dd.value else acc) d.default } := by
-  rw [defdef_fold]
+  rw [defdef_fold dds m hok]
 
 /-! ## non-vacuity -/
 
@@ -51,7 +52,7 @@ def exEcusA : List WEcu := [{ name := "ECU_A".toList, comment := some "engine\nc
   { name := "ECU_B".toList }, { name := "Gateway".toList, comment := some "gw".toList }]
 def exGlobal : List (Str × Str) := [("BusSpeed".toList, "500.5".toList)]
 
-example : wfEcus exEcusA = true ∧ wfDefs exDefs = true ∧ exDefaults.all wfDefDef = true := by decide +kernel
+example : wfEcus exEcusA = true ∧ wfDefs exDefs = true ∧ wfDefaults exDefs exDefaults = true := by decide +kernel
 example : wfAttrs (expectDefs exDefs exDefaults) .global .global exGlobal = true := by decide +kernel
 example : exEcusA.all (fun e => wfAttrs (expectDefs exDefs exDefaults) .ecu (.ecu e.name) e.attrs) = true := by decide +kernel
 example : (readFile (writeCoreD exEcusA exDefs exDefaults exGlobal (CanVerif.C05h.exFrames.map (·.1)))).defs =
@@ -65,5 +66,10 @@ example : (readFile (writeCoreD exEcusA exDefs exDefaults exGlobal (CanVerif.C05
 /-- a number is demanded where the definition says so: the same file with a text for `BusSpeed` is refused at that line -/
 example : (readFile (writeCoreD exEcusA exDefs exDefaults [("BusSpeed".toList, "\"fast\"".toList)] (CanVerif.C05h.exFrames.map (·.1)))).errors = 1 := by
   decide +kernel
+
+/-- a default that is no number for a numeric definition is refused at that line and leaves the earlier default (C20: the line is skipped) -/
+example : (readFile ["BA_DEF_ BO_ \"Cyc\" INT 0 100;".toList, "BA_DEF_DEF_ \"Cyc\" 5;".toList, "BA_DEF_DEF_ \"Cyc\" abc;".toList]).errors = 1 ∧
+    (readFile ["BA_DEF_ BO_ \"Cyc\" INT 0 100;".toList, "BA_DEF_DEF_ \"Cyc\" 5;".toList, "BA_DEF_DEF_ \"Cyc\" abc;".toList]).defs.map (·.default) =
+      [some "5".toList] := by decide +kernel
 
 end CanVerif.C05k
